@@ -339,7 +339,10 @@ class CompositeType(SerializableType):
                 return c.value
 
         if name.native_value == "_extent_":  # Experimental non-standard extension
-            return _expression.Rational(self.extent)
+            try:
+                return _expression.Rational(self.extent)
+            except TypeError:  # A service type is not serializable, it has no extent.
+                pass
 
         return super()._attribute(name)  # Hand over up the inheritance chain, this is important
 
@@ -726,6 +729,9 @@ class ServiceType(CompositeType):
     ) -> typing.Iterator[typing.Tuple[Field, BitLengthSet]]:
         """Always raises a :class:`TypeError`."""
         raise TypeError("Service types do not have serializable fields. Use either request or response.")
+
+    def _check_aggregation(self, aggregate: "SerializableType") -> typing.Optional[AggregationFailure]:
+        return AggregationFailure(self, aggregate, "A service type is not serializable and cannot be used as a data type")
 
 
 # +--[UNIT TESTS]-----------------------------------------------------------------------------------------------------+
